@@ -48,6 +48,11 @@ type World struct {
 	phiEnv   map[*ssa.Phi]ssa.Value // path context while enumerating paths
 	phiBusy  map[*ssa.Phi]bool
 	memEnv   map[*ssa.Alloc]ssa.Value // last value stored to a multi-store local on the current path
+	paramEnv map[*ssa.Parameter]ssa.Value // parameters of inlined callees → caller values
+	callEnv  map[*ssa.Call][]ssa.Value    // inlined calls → the values returned on the current path
+	noInline func(*ssa.Function) bool     // rule anchors (role functions) are never inlined
+	inlMemo  map[*ssa.Function]bool
+	prrMemo  map[[2]interface{}]bool
 	files    map[string][]byte
 	all      map[*ssa.Function]bool
 	overlay  map[string][]byte
